@@ -24,6 +24,7 @@ import (
 	"strings"
 	"testing"
 
+	"github.com/pegnet/pegnetd/config"
 	"github.com/pegnet/pegnetd/fat/fat2"
 )
 
@@ -179,3 +180,87 @@ func TestConf_AveragesRestartIndependent_AllBlocksRated(t *testing.T) { confAver
 
 // histories with unrated heights
 func TestConf_AveragesRestartIndependent_WithUnratedBlocks(t *testing.T) { confAverages(t, true) }
+
+// ---- faults while reading the rates (C10) ----------------------------------------------------------------------------
+// GetPegNetRateAverages has no error result: a failed read of the recorded rates must be FATAL (it panics; the daemon
+// restarts with an empty cache and the block is retried) or have no effect on any averages handed out afterwards.  The k-th
+// rates query of the sync routine's call sequence is failed once, for every k, in an era where conversions do not use the
+// averages yet and in one where they do; every answer (after the emulated restart, if it panicked) must equal the
+// fault-free answer.  Bounds: AveragePeriod 4, 8 rated heights, 2 assets, 2 eras, every query index.
+func TestConf_AveragesUnderReadFaults(t *testing.T) {
+	oldP, oldR := AveragePeriod, AverageRequired
+	AveragePeriod, AverageRequired = 4, 2
+	defer func() { AveragePeriod, AverageRequired = oldP, oldR }()
+	d, done := vfNewNode(t)
+	defer done()
+	evals := 0
+	for _, base := range []uint32{1000, config.PIP10AverageActivation + 1000} {
+		if _, err := d.Pegnet.DB.Exec(`DELETE FROM pn_rate`); err != nil {
+			t.Fatal(err)
+		}
+		var heights []uint32
+		for i := 1; i <= 8; i++ {
+			h := base + uint32(i)
+			heights = append(heights, h)
+			for _, tv := range []struct {
+				n string
+				v uint64
+			}{{"pUSD", uint64(1000 + 37*i*i%211)}, {"pEUR", uint64(500 + 91*i%173)}} {
+				if _, err := d.Pegnet.DB.Exec(`INSERT INTO pn_rate (height, token, value) VALUES (?, ?, ?)`, h, tv.n, tv.v); err != nil {
+					t.Fatal(err)
+				}
+			}
+		}
+		run := func(faultAt int) (out []map[fat2.PTicker]uint64, panics int, fired int) {
+			confAvgReset(d)
+			vfSetFault("SELECT token, value FROM pn_rate WHERE height", faultAt)
+			defer vfSetFault("", 0)
+			for _, h := range heights {
+				var m map[fat2.PTicker]uint64
+				call := func() (ok bool) {
+					defer func() {
+						if recover() != nil {
+							ok = false
+						}
+					}()
+					m = d.GetPegNetRateAverages(context.Background(), h).(map[fat2.PTicker]uint64)
+					return true
+				}
+				if !call() {
+					panics++
+					confAvgReset(d) // the daemon died: a new process starts with an empty cache and asks again
+					if !call() {
+						t.Fatalf("fixture: second panic in a row at height %d", h)
+					}
+				}
+				cp := map[fat2.PTicker]uint64{}
+				for a, v := range m {
+					cp[a] = v
+				}
+				out = append(out, cp)
+			}
+			return out, panics, vfFaultFired()
+		}
+		ref, p0, _ := run(1 << 30)
+		if p0 != 0 {
+			t.Fatalf("fixture: the fault-free run panics")
+		}
+		for k := 1; ; k++ {
+			got, panics, fired := run(k)
+			if fired == 0 {
+				break // fewer than k rate queries in the sequence
+			}
+			evals++
+			for i := range ref {
+				if !reflect.DeepEqual(ref[i], got[i]) {
+					t.Errorf("CONF leaf=GetPegNetRateAverages clause=a_failed_rates_read_is_fatal_or_harmless base_height=%d: rates query %d failed once (%d panics/restarts); the averages at height %d are %v, fault-free %v", base, k, panics, heights[i], fmtAvg(got[i]), fmtAvg(ref[i]))
+					break
+				}
+			}
+			if t.Failed() {
+				break
+			}
+		}
+	}
+	t.Logf("CONF-STATS evaluations=%d (era x faulted rates query)", evals)
+}
